@@ -695,6 +695,10 @@ class Describer:
         if n is None:
             return opaque("writer has no main arm")
         if n.kind == "if":
+            cases = self.scalar_cases(n, V)
+            if cases is not None:
+                prefix, alts = cases
+                return {"k": "scalar", "prefix": prefix, "conv": ["cases", alts], "null": null, "guards": guards}
             return opaque(f"writer forks on {show_term(n.cond)}")
         if n.kind == "ret":
             return {"k": "nothing", "null": null, "guards": guards}
@@ -767,6 +771,41 @@ class Describer:
         if nxt is not None and nxt.kind == "ret":
             return {"k": "scalar", "prefix": prefix, "conv": subst(targ, V, HOLE), "null": null, "guards": guards}
         return opaque(f"unrecognised writer continuation after {ev!r}")
+
+    def scalar_cases(self, n, V):
+        """An if-tree whose every leaf is one fixed/varint write of a value term followed by return:
+        a scalar writer whose conversion is defined by cases.  Returns (prefix, [[conds, term], ...])."""
+        out, prefixes = [], set()
+
+        def walk(node, conds):
+            node = skip_noise(node)
+            if node is None:
+                return False
+            if node.kind == "if":
+                return walk(node.yes, conds + [[subst(node.cond, V, HOLE), True]]) and \
+                    walk(node.no, conds + [[subst(node.cond, V, HOLE), False]])
+            if node.kind == "raise":
+                out.append([conds, ["raise", node.exc]])
+                return True
+            if node.kind != "ev" or node.ev[1] != "P0":
+                return False
+            ev = node.ev
+            if ev[0] == "wvarint":
+                prefix, targ = ("varint",), ev[2]
+            elif ev[0] == "write" and ev[2][0] == "pack" and len(ev[2]) == 3:
+                prefix, targ = ("fixed", ev[2][1]), ev[2][2]
+            else:
+                return False
+            nxt = skip_noise(node.next)
+            if nxt is None or nxt.kind != "ret":
+                return False
+            prefixes.add(prefix)
+            out.append([conds, subst(targ, V, HOLE)])
+            return True
+        if not walk(n, []) or len(prefixes) != 1:
+            return None
+        p = prefixes.pop()
+        return ({"k": "varint"} if p[0] == "varint" else {"k": "fixed", "fmt": p[1]}), out
 
     def strip_none(self, t):
         alts = [a for a in self.I.alts(t) if a is not LibClass.get("NoneType")]
